@@ -35,8 +35,8 @@
       `lower_bound_preserved`, `upper_bound_preserved` – the
                                       interpolant is monotone on every knot interval, between its end
                                       values, and inside the knot range within `[min y, max y]`.
-  Binary64 only: `float_mask_underflow_counterexample` (finding PCHIP-U1: the sign mask underflows for
-  secants below ≈ 1e-162).
+  Binary64 only: `float_mask_underflow_counterexample` documents the fixed finding PCHIP-U1 (the former product
+  mask underflowed for secants below ≈ 1e-162; `mask_variants_agree`: same test over an ordered field).
   Not formalised: the analytic notion `ContDiff ℝ 1` (the algebraic joint conditions above are what a
   C¹ piecewise polynomial is); binary64 rounding (validated by correspondence + SciPy oracle).
 -/
@@ -426,20 +426,28 @@ theorem upper_bound_preserved (hb : build x y = some P) {hi x0 xn q : α} (hy : 
   obtain ⟨v, i, ya, yb, hv, hya, hyb, _, u⟩ := between_neighbours hb h0 hn hq0 hqn
   exact ⟨v, hv, le_trans u (max_le (hy _ (List.mem_of_getElem? hya)) (hy _ (List.mem_of_getElem? hyb)))⟩
 
-/-! ## Binary64 gap (finding PCHIP-U1, low severity)
+/-! ## Binary64 gap of the former mask (finding PCHIP-U1, fixed)
 
-The theorems above are about ordered fields. In binary64 the mask `delta_l * delta_r > 0` of
-`_pchip_derivatives` underflows when both secants are below ≈ 1e-162: the product rounds to 0, the
-mask is false and the interior slope becomes 0 although both secants are strictly positive (standard
-PCHIP — and SciPy, which compares signs — takes the harmonic mean). The interpolant stays monotone, but
-is not the standard one. Kernel-evaluated at `Float` on the model (a test, not a proof about torch). -/
+The theorems above are about ordered fields, where the product test `0 < Δ_l * Δ_r` and the sign test of
+`sameSign` coincide (`sameSign_iff`, `sameSignByProduct_eq`). In binary64 they do not: the product of two
+secants below ≈ 1e-162 rounds to 0, so the *former* mask `(delta_l * delta_r) > 0` (`sameSignByProduct`) was
+false for two strictly positive secants and the interior slope became 0 where standard PCHIP — and SciPy,
+which compares signs — takes the harmonic mean. The code now compares signs. Kernel-evaluated at `Float` on
+the model (a test, not a proof about torch): former mask false, current mask true, current interior slopes
+non-zero. -/
 
 theorem float_mask_underflow_counterexample :
     (secants [0.0, 1e-170, 3e-170, 7e-170] (diffs [(0.0 : Float), 1.0, 2.0, 3.0])).all (fun s => decide (0 < s)) = true ∧
+    sameSignByProduct (1e-170 : Float) 2e-170 = false ∧ sameSign (1e-170 : Float) 2e-170 = true ∧
     (derivs (diffs [(0.0 : Float), 1.0, 2.0, 3.0])
         (secants [0.0, 1e-170, 3e-170, 7e-170] (diffs [(0.0 : Float), 1.0, 2.0, 3.0]))).map
-      (fun d => ((d.drop 1).take 2).all (fun v => v == 0)) = some true := by
+      (fun d => ((d.drop 1).take 2).all (fun v => decide (0 < v))) = some true := by
   decide +kernel
+
+/-- Over an ordered field the former and the current mask are the same test (so every theorem of this file
+holds for both variants of the code). -/
+theorem mask_variants_agree (dl dr : α) : sameSignByProduct dl dr = sameSign dl dr :=
+  sameSignByProduct_eq dl dr
 
 /-! ## Non-vacuity: concrete instances over ℚ (evaluated by the kernel — these are tests) -/
 
